@@ -598,7 +598,15 @@ func (fc *fnCtx) oblige(st *State, kind string, ordKey string, goal string, desc
 		claimed = true
 	}
 	if t.contract != nil && t.contract.Waived != nil {
-		if why, ok := t.contract.Waived[name]; ok {
+		why, ok := t.contract.Waived[name]
+		if !ok {
+			for pat, w := range t.contract.Waived {
+				if strings.Contains(pat, "*") && wildcardMatch(pat, name) {
+					why, ok = w, true
+				}
+			}
+		}
+		if ok {
 			claimed = false
 			desc += " [not claimed: " + why + "]"
 			t.waivedUsed = append(t.waivedUsed, t.funcName()+"#"+name+": "+why)
@@ -617,6 +625,27 @@ func (fc *fnCtx) oblige(st *State, kind string, ordKey string, goal string, desc
 	t.curSkolems = nil
 	t.obligations = append(t.obligations, o)
 	return o
+}
+
+// wildcardMatch: `*` matches any (possibly empty) substring.
+func wildcardMatch(pat, s string) bool {
+	parts := strings.Split(pat, "*")
+	if !strings.HasPrefix(s, parts[0]) {
+		return false
+	}
+	s = s[len(parts[0]):]
+	for i := 1; i < len(parts); i++ {
+		p := parts[i]
+		if i == len(parts)-1 {
+			return strings.HasSuffix(s, p)
+		}
+		j := strings.Index(s, p)
+		if j < 0 {
+			return false
+		}
+		s = s[j+len(p):]
+	}
+	return true
 }
 
 func (fc *fnCtx) funcName() string {
@@ -1815,11 +1844,15 @@ func (fc *fnCtx) goEq(a, b Val, t types.Type) string {
 		}
 		return eq(a.T, b.T)
 	case *types.Slice:
-		// only comparison with nil is legal
+		// in code only comparison with nil is legal; inside struct comparisons of
+		// specifications, slice fields are compared by identity
 		if a.T == "(mkslice 0 0 0 0)" {
 			return eq("(sl.base "+b.T+")", "0")
 		}
-		return eq("(sl.base "+a.T+")", "0")
+		if b.T == "(mkslice 0 0 0 0)" {
+			return eq("(sl.base "+a.T+")", "0")
+		}
+		return eq(a.T, b.T)
 	}
 	return eq(a.T, b.T)
 }
